@@ -23,6 +23,7 @@ type in struct {
 	WantV6    bool   `json:"want_v6"`
 	Queries   int    `json:"queries"`
 	E2e       int    `json:"e2e"`
+	Paris     bool   `json:"paris"`
 }
 
 type hop struct {
@@ -45,7 +46,7 @@ func main() {
 		os.Exit(2)
 	}
 	params := traceroute.TracerouteParams{Hostname: p.Hostname, Port: p.Port, Protocol: p.Protocol, MinTTL: p.MinTTL, MaxTTL: p.MaxTTL, Delay: 50,
-		Timeout: time.Duration(p.TimeoutMs) * time.Millisecond, TCPMethod: traceroute.TCPMethod(p.TCPMethod), WantV6: p.WantV6, TracerouteQueries: p.Queries, E2eQueries: p.E2e}
+		Timeout: time.Duration(p.TimeoutMs) * time.Millisecond, TCPMethod: traceroute.TCPMethod(p.TCPMethod), WantV6: p.WantV6, TracerouteQueries: p.Queries, E2eQueries: p.E2e, TCPSynParisTracerouteMode: p.Paris}
 	res, err := traceroute.NewTraceroute().RunTraceroute(context.Background(), params)
 	var o out
 	if err != nil {
